@@ -2344,10 +2344,11 @@ impl LineBuf {
 			LineAddr::Number(num) => Some(num.saturating_sub(1)), // Line ranges are one indexed for input, zero indexed internally
 																														// Both zero and one refer to the first line
 			LineAddr::Current => Some(self.cursor_line_number()),
-			LineAddr::Last => Some(self.total_lines()),
+			LineAddr::Last => Some(self.line_count() - 1),
 			LineAddr::Offset(offset) => {
+				// An offset that leads before the first line is an invalid address
 				let current = self.cursor_line_number();
-				Some(current.saturating_add_signed(offset))
+				current.checked_add_signed(offset)
 			}
 			LineAddr::PatternRev(ref pat) |
 			LineAddr::Pattern(ref pat) => {
@@ -2446,20 +2447,23 @@ impl LineBuf {
 		match motion {
 			MotionCmd(_,Motion::NotGlobal(ref addr, ref pattern)) |
 			MotionCmd(_,Motion::Global(ref addr, ref pattern)) => {
-				let (start_line,end_line) = match **addr {
-					Motion::Line(ref n) => {
-						let line_no = self.eval_line_addr(n.clone()).unwrap();
-						(line_no,line_no)
-					}
+				let last_line = self.line_count() - 1;
+				let bounds = match **addr {
+					Motion::Line(ref n) => self.eval_line_addr(n.clone()).map(|line_no| (line_no,line_no)),
 					Motion::LineRange(ref s,ref e) => {
-						let start_ln = self.eval_line_addr(s.clone()).unwrap();
-						let end_ln = self.eval_line_addr(e.clone()).unwrap();
-						(start_ln,end_ln)
+						self.eval_line_addr(s.clone())
+							.zip(self.eval_line_addr(e.clone()))
+							.map(|(start_ln,end_ln)| ordered(start_ln,end_ln))
 					}
-					_ => (0,self.total_lines())
+					_ => Some((0,last_line))
+				};
+				let Some((start_line,end_line)) = bounds.filter(|(_,end_line)| *end_line <= last_line) else {
+					// An invalid range addresses no line
+					return MotionKind::Lines(vec![])
 				};
 				let mut lines = vec![];
-				let line_range = start_line..end_line;
+				// Both ends of an ex range are inclusive
+				let line_range = start_line..=end_line;
 				let regex = match pattern {
 					Val::Regex(regex) => regex.clone(),
 					_ => match Regex::new(&pattern.to_string()) {
